@@ -42,4 +42,22 @@ CLAIMED = {
            "gene layouts; every reported location is also extracted from the genome with Biopython and checked to be start..stop without inner stop."),
   "note": "Biopython Seq.extract is used by the implementation-side oracle only.",
  },
+ "C01": {
+  "text": ("Proof about a faithful Gallina transcription of the condition evaluator of rule_parser.py (Details.possibilities/in_range incl. the "
+           "truthiness test on circular_origin, ConditionMet, Conditions.is_satisfied/are_subconditions_satisfied, AndCondition, MinimumCondition, "
+           "CDSCondition, SingleCondition, ScoreCondition, DetectionRule.detect) returning met, the reason profiles and the ancillary hits. Proved "
+           "for EVERY condition tree (nested inductive type: all five kinds, negation anywhere, arbitrary nesting), every hit/score layout, every "
+           "gene and both local/non-local modes, under the only hypothesis that genes with hits are known genes (C01/Theorems.v): C01_met / "
+           "C01_detect: the evaluator's truth value equals the documented boolean meaning `holds` (name: hits the gene or a gene with dist < cutoff; "
+           "cds: one single gene in range satisfies the inner formula locally; minimum: count over gene + genes in range >= k; minscore: score >= s "
+           "on the gene or in range; not/and/or plain) - structural induction with a hand-rolled principle for the nested lists; "
+           "C01_neg_is_negation; C01_reasons_hit_gene_partial: every reported reason profile hits the evaluated gene itself; C01_anchor: an anchor "
+           "implies formula true and an own reason.  'dist < cutoff' is the distance of the location model whose meaning is given by the C04 "
+           "theorems (line and ring).  NOT proved (correspondence only): completeness of the reasons (exactly the rule's profiles hitting the gene, "
+           "with the cds/minscore provisos), content of ancillary hits.  Correspondence: DetectionRule.detect (or Conditions.get_satisfied when the "
+           "rule class refuses a tree without positive condition) on 25k (quick) / 400k (thorough) (tree, layout, gene) triples: trees built through "
+           "the class constructors, genes on lines and rings with gaps on {cutoff-1, cutoff, cutoff+1} also across the origin, origin-spanning genes, "
+           "scores on the thresholds; met, reasons and ancillary hits compared."),
+  "note": "Hits are ProfileHit objects built by the harness; genes are stand-ins carrying only a secmet location (the evaluator reads nothing else).",
+ },
 }
